@@ -235,7 +235,7 @@ fn main() {
     }
     for case in args.cases("gear", 20_000, 600_000) {
         let mut rng = Rng::new(args.seed, 802, case);
-        let ratio = (rng.sign() * rng.log_uniform(1e-2, 1e2)) as f32;
+        let ratio = if rng.chance(0.2) { *rng.pick(&[1.0f32, -1.0, 2.0, -0.5, 100.0, -0.01]) } else { (rng.sign() * rng.log_uniform(1e-2, 1e2)) as f32 };
         let ext: Vec<T> = (0..2).map(|_| Terminal::new()).collect();
         let mut dev = if case % 2 == 0 { GearTrain::<E>::with_ratio_raw(ratio) } else { GearTrain::<E>::with_ratio(Quantity::dimensionless(ratio)) };
         let terms = vec![dev.get_terminal_1(), dev.get_terminal_2()];
